@@ -491,6 +491,17 @@ func (ex *Exec) eqVal(a, b *Val) string {
 			if a.Sh.Leaf == "Int" && b.Sh.Leaf == "Real" {
 				return eq("(to_real "+a.S+")", b.S)
 			}
+			// an interface compared with a scalar of a concrete type: box the scalar
+			if a.Sh.Leaf == "Int" && a.T != nil && isRefType(a.T) {
+				if bv := ex.boxScalar(b); bv != "" {
+					return eq(a.S, bv)
+				}
+			}
+			if b.Sh.Leaf == "Int" && b.T != nil && isRefType(b.T) {
+				if bv := ex.boxScalar(a); bv != "" {
+					return eq(bv, b.S)
+				}
+			}
 			return ex.eng.smt.fresh("eqmix", "Bool")
 		}
 		return eq(a.S, b.S)
